@@ -384,7 +384,9 @@ class Check:
         idx = [i for i, l in enumerate(lines) if not l.startswith("tendril")]
         if len(idx) > cap:
             step = len(idx) / float(cap)
-            idx = sorted(set(idx[int(k * step)] for k in range(cap)))
+            # evenly spaced, plus the 300 longest cases (size-only families: thresholds in diagnostic strings, buffers)
+            longest = sorted(idx, key=lambda i: -len(lines[i]))[:300]
+            idx = sorted(set(idx[int(k * step)] for k in range(cap)) | set(longest))
         self.logged_idx = idx
         self.impl_logged = run_impl([lines[i] for i in idx], timeout=getattr(m, "SHARD_TIMEOUT", 900),
                                     extra_env={"H5V_LOG": "1"}) if idx else []
@@ -392,7 +394,8 @@ class Check:
         ridx = list(range(len(lines)))
         if len(ridx) > cap:
             step = len(ridx) / float(cap)
-            ridx = sorted(set(ridx[int(k * step)] for k in range(cap)))
+            longest = sorted(ridx, key=lambda i: -len(lines[i]))[:300]
+            ridx = sorted(set(ridx[int(k * step)] for k in range(cap)) | set(longest))
         self.rel_idx = ridx
         self.impl_rel = run_binary(HARNESS_REL_BIN, [lines[i] for i in ridx], timeout=getattr(m, "SHARD_TIMEOUT", 900)) if ridx else []
         t = time.time()
